@@ -106,7 +106,7 @@ def worker(args):
             for k, v in res.probes.items():
                 out["probes"][k] = out["probes"].get(k, 0) + v
             shapes.update(res.shapes)
-            if args.digests:
+            if args.digests or i < args.digest_upto:
                 out["digests"][str(i)] = res.digest
             if len(out["samples"]) < 2 and res.sample is not None:
                 out["samples"].append({"run": i, "plan": res.sample})
@@ -138,6 +138,15 @@ def worker(args):
 def replay(args):
     with open(args.replay) as f:
         rep = json.load(f)
+    if rep.get("cross_hashseeds"):
+        a, b = (cross_digest(args.replay, h) for h in rep["cross_hashseeds"])
+        print(f"digest under PYTHONHASHSEED={rep['cross_hashseeds'][0]}: {a}\n"
+              f"digest under PYTHONHASHSEED={rep['cross_hashseeds'][1]}: {b}")
+        if a != b:
+            print(f"VIOLATION property={rep['property']} replay={os.path.abspath(args.replay)}")
+            return 1
+        print("replay did not reproduce: digests agree")
+        return 0
     want_hs = str(rep.get("hashseed", 0))
     if os.environ.get("PYTHONHASHSEED") != want_hs or not os.environ.get("VERIF_CHILD"):
         env = child_env(want_hs)
@@ -179,9 +188,11 @@ def run_engine(prop, engine_name, tier, seed, nshards, overrides):
                "--max-runs", str(max_runs), "--budget", str(budget), "--out", out]
         if overrides.get("digests"):
             cmd += ["--digests", "1"]
+        if overrides.get("digest_upto"):
+            cmd += ["--digest-upto", str(overrides["digest_upto"])]
         log = open(os.path.join(scratch, f"shard{s}.log"), "w")
         hs = overrides.get("hashseed")
-        env = child_env(s % 4 if hs is None else hs)
+        env = child_env((s % 4 if hs is None else hs) + overrides.get("hashseed_offset", 0))
         env["VERIF_CHILD"] = "1"
         procs.append((s, out, log, subprocess.Popen(cmd, env=env, stdout=log, stderr=subprocess.STDOUT)))
     hard = budget * 4 + 600
@@ -234,8 +245,42 @@ def merge(results):
     return agg
 
 
+def cross_digest(path, hashseed):
+    env = child_env(hashseed)
+    env["VERIF_CHILD"] = "1"
+    r = subprocess.run([sys.executable, os.path.abspath(__file__), "C07", "--cross", path], env=env,
+                       capture_output=True, text=True)
+    lines = [ln for ln in r.stdout.splitlines() if ln.startswith("DIGEST ")]
+    return lines[-1].split()[1] if lines else f"error:{r.returncode}"
+
+
+def write_cross(prop, engine_name, tier, seed, v):
+    engine = importlib.import_module(engine_name)
+    rep = {
+        "property": prop, "engine": engine_name, "tier": tier, "seed": seed, "run_index": v["run"],
+        "hashseed": 0, "cross_hashseeds": [0, 17], "violation_class": v["class"], "detail": v["detail"],
+        "plan": v["replay"], "human_readable_plan": engine.describe(v["replay"]),
+    }
+    d = os.path.join(os.environ.get("VERIF_REPLAY_DIR") or os.path.join(VERIF, "replays"), prop)
+    os.makedirs(d, exist_ok=True)
+    path = os.path.join(d, f"{seed}-{core.slug(v['class'])}.json")
+    with open(path, "w") as f:
+        json.dump(rep, f, indent=1, sort_keys=True)
+    a, b = cross_digest(path, 0), cross_digest(path, 17)
+    if a == b:
+        # not every pair of hash seeds need differ: try the pair the batch used
+        i = v["run"]
+        rep["cross_hashseeds"] = [i % 4, i % 4 + 17]
+        with open(path, "w") as f:
+            json.dump(rep, f, indent=1, sort_keys=True)
+        a, b = cross_digest(path, rep["cross_hashseeds"][0]), cross_digest(path, rep["cross_hashseeds"][1])
+    return path, (a != b and not a.startswith("error") and not b.startswith("error"))
+
+
 def minimise_and_write(prop, engine_name, tier, seed, v, hashseed=0):
     """shrink the plan in-process, then confirm in a fresh interpreter"""
+    if v.get("cross"):
+        return write_cross(prop, engine_name, tier, seed, v)
     engine = importlib.import_module(engine_name)
 
     def still(plan):
@@ -283,15 +328,39 @@ def check(args):
     nshards = args.shards or min(16, os.cpu_count() or 4)
     nshards = max(4, nshards - nshards % 4)
     overrides = {"runs": args.runs, "budget": args.budget, "digests": args.digests,
-                 "hashseed": args.hashseed}
+                 "hashseed": args.hashseed, "digest_upto": 0}
     known_entries = core.known_for(prop)
     all_errors, per_engine, unlisted, observed_known = [], {}, [], {}
     for en in engines:
+        overrides["digest_upto"] = 0 if args.no_cross else getattr(importlib.import_module(en), "CROSS_HASHSEED", 0)
         results, errors, max_runs = run_engine(prop, en, tier, seed, nshards, overrides)
         all_errors.extend(errors)
         agg = merge(results)
         agg["max_runs"] = max_runs
         per_engine[en] = agg
+        cross_n = getattr(importlib.import_module(en), "CROSS_HASHSEED", 0) if not args.no_cross else 0
+        if cross_n and not args.digests:
+            # the same run indices again in interpreters with another hash seed:
+            # everything observable must be identical (worker processes of a real
+            # pool, and a resumed run, do not share the master's hash seed)
+            ov = dict(overrides, runs=min(cross_n, max_runs), digest_upto=cross_n, hashseed_offset=17, budget=None)
+            results2, errors2, _ = run_engine(prop, en, tier, seed, 4, ov)
+            all_errors.extend(errors2)
+            d2 = merge(results2)["digests"]
+            diff = sorted((k for k in d2 if k in agg["digests"] and agg["digests"][k] != d2[k]), key=int)
+            agg["cross_hashseed_runs"] = len([k for k in d2 if k in agg["digests"]])
+            agg["probes"]["cross-hashseed-compared"] = agg["cross_hashseed_runs"]
+            if diff:
+                i = int(diff[0])
+                eng = importlib.import_module(en)
+                plan = eng.gen(core.make_rng(seed, en, i), tier, i)
+                cls = f"{prop}.hashseed-dependent/{en}"
+                agg["violations"][cls] = {
+                    "class": cls, "count": len(diff), "run": i, "size": 0, "cross": True,
+                    "detail": f"run {i} gives different observable results under PYTHONHASHSEED "
+                              f"{i % nshards % 4} and {i % 4 + 17} ({len(diff)} of {agg['cross_hashseed_runs']} compared runs differ)",
+                    "replay": plan,
+                }
         for cls, v in sorted(agg["violations"].items()):
             k = core.match_known(cls, known_entries)
             if k is not None:
@@ -420,6 +489,7 @@ def main():
     ap.add_argument("--hashseed", type=int)
     ap.add_argument("--max-report", type=int, default=8)
     ap.add_argument("--digests", help="write per-run digests to this file")
+    ap.add_argument("--no-cross", action="store_true", help="skip the cross-hash-seed comparison")
     ap.add_argument("--one", type=int, help="developer: execute run index N of --engine in-process and print it")
     # worker mode
     ap.add_argument("--worker", action="store_true")
@@ -429,9 +499,17 @@ def main():
     ap.add_argument("--nshards", type=int, default=1)
     ap.add_argument("--max-runs", type=int, default=1)
     ap.add_argument("--out")
+    ap.add_argument("--digest-upto", type=int, default=0)
+    ap.add_argument("--cross", help="replay helper: print the digest of the plan in this replay file")
     args = ap.parse_args()
     if args.worker:
         sys.exit(worker(args))
+    if args.cross:
+        with open(args.cross) as f:
+            rep = json.load(f)
+        res = importlib.import_module(rep["engine"]).run(rep["plan"], rep.get("tier", "quick"))
+        print("DIGEST", res.digest)
+        sys.exit(0)
     if args.property not in ENGINES:
         print(f"unknown property {args.property!r}; claimed: {sorted(ENGINES)}")
         sys.exit(2)
